@@ -21,6 +21,11 @@ type FreeList struct {
 	blockPool       []types.Block
 	poolLk          sync.RWMutex
 	flushLock       sync.Mutex
+
+	// flushedCount is the number of entries that have left blockPool to be
+	// written since the freelist was opened. The n-th entry ever put is
+	// blockPool[n-1-flushedCount] while it is waiting.
+	flushedCount uint64
 }
 
 const (
@@ -81,6 +86,7 @@ func (cp *FreeList) Flush() (types.Work, error) {
 	blocks := cp.blockPool
 	cp.blockPool = make([]types.Block, 0, blockPoolSize)
 	cp.outstandingWork = 0
+	cp.flushedCount += uint64(len(blocks))
 	cp.poolLk.Unlock()
 
 	// The pool lock is released allowing Put to write to nextPool. The
@@ -90,6 +96,63 @@ func (cp *FreeList) Flush() (types.Work, error) {
 	if len(blocks) == 0 {
 		return 0, nil
 	}
+
+	var work types.Work
+	for _, record := range blocks {
+		blockWork, err := cp.flushBlock(record)
+		if err != nil {
+			return 0, err
+		}
+		work += blockWork
+	}
+	err := cp.writer.Flush()
+	if err != nil {
+		return 0, fmt.Errorf("cannot flush data to freelist file %s: %w", cp.file.Name(), err)
+	}
+
+	return work, nil
+}
+
+// PutCount returns the number of entries put since the freelist was opened.
+func (cp *FreeList) PutCount() uint64 {
+	cp.poolLk.RLock()
+	defer cp.poolLk.RUnlock()
+	return cp.flushedCount + uint64(len(cp.blockPool))
+}
+
+// FlushTo is Flush limited to the entries that had been put when PutCount
+// returned count; later entries stay in the pool for a later flush.
+//
+// An entry names a location that an index update has superseded, and it must
+// not reach the freelist file before that update has reached the index file:
+// after a crash the index would still point at a location that the freelist
+// tells GC to delete. A caller that flushes the index while updates continue
+// therefore reads PutCount before it flushes the index, and afterwards writes
+// only the entries that had been put by then.
+func (cp *FreeList) FlushTo(count uint64) (types.Work, error) {
+	cp.flushLock.Lock()
+	defer cp.flushLock.Unlock()
+
+	cp.poolLk.Lock()
+	if count <= cp.flushedCount {
+		cp.poolLk.Unlock()
+		return 0, nil
+	}
+	n := len(cp.blockPool)
+	if count-cp.flushedCount < uint64(n) {
+		n = int(count - cp.flushedCount)
+	}
+	if n == 0 {
+		cp.poolLk.Unlock()
+		return 0, nil
+	}
+	blocks := cp.blockPool[:n:n]
+	rest := make([]types.Block, 0, blockPoolSize)
+	rest = append(rest, cp.blockPool[n:]...)
+	cp.blockPool = rest
+	cp.outstandingWork = types.Work(len(rest) * (types.SizeBytesLen + types.OffBytesLen))
+	cp.flushedCount += uint64(n)
+	cp.poolLk.Unlock()
 
 	var work types.Work
 	for _, record := range blocks {
